@@ -13,14 +13,20 @@
 (* code as written (the thread-local cache has no destructor).             *)
 (* Every block carries the thread that may access its memory (holder); an  *)
 (* access by another thread without an intervening Send/Recv is a race.    *)
+(* Scratch objects (the random generator of the norm estimator, work       *)
+(* spaces of the matrix exponential) are mutable library-internal state:   *)
+(* each is made by a thread on first need, used by that thread only, and   *)
+(* dropped when the thread ends.  Using a scratch object made by another   *)
+(* thread is a race (nothing synchronises it).  NRes = 0 leaves them out.  *)
 (***************************************************************************)
 EXTENDS Integers, FiniteSets, Sequences, TLC
 
-CONSTANTS Threads, NBlk, Cap, MaxOps, DrainOnExit
+CONSTANTS Threads, NBlk, Cap, MaxOps, DrainOnExit, NRes, SharedScratch
 
-VARIABLES blk, cache, chan, alive, nops, raced
+VARIABLES blk, cache, chan, alive, nops, raced, res
 
-vars == <<blk, cache, chan, alive, nops, raced>>
+vars == <<blk, cache, chan, alive, nops, raced, res>>
+Res == 1..NRes
 Blocks == 1..NBlk
 Free == [st |-> "free", th |-> 0]
 
@@ -29,36 +35,37 @@ Init == /\ blk = [b \in Blocks |-> Free]
         /\ chan = {}
         /\ alive = [t \in Threads |-> TRUE]
         /\ nops = 0 /\ raced = FALSE
+        /\ res = [r \in Res |-> 0]
 
 \* a vector is created on thread t: a block from t's cache or a fresh one
 AllocHit(t, b) == /\ alive[t] /\ b \in cache[t]
                   /\ blk' = [blk EXCEPT ![b] = [st |-> "vec", th |-> t]]
                   /\ cache' = [cache EXCEPT ![t] = @ \ {b}]
-                  /\ UNCHANGED <<chan, alive, raced>>
+                  /\ UNCHANGED <<chan, alive, raced, res>>
 AllocNew(t, b) == /\ alive[t] /\ blk[b].st = "free"
                   /\ blk' = [blk EXCEPT ![b] = [st |-> "vec", th |-> t]]
-                  /\ UNCHANGED <<cache, chan, alive, raced>>
+                  /\ UNCHANGED <<cache, chan, alive, raced, res>>
 \* a vector held by thread t is destroyed: its block goes into t's cache (if room) or back to the heap
 ReleaseCache(t, b) == /\ alive[t] /\ blk[b] = [st |-> "vec", th |-> t] /\ Cardinality(cache[t]) < Cap
                       /\ blk' = [blk EXCEPT ![b] = [st |-> "cached", th |-> t]]
                       /\ cache' = [cache EXCEPT ![t] = @ \cup {b}]
-                      /\ UNCHANGED <<chan, alive, raced>>
+                      /\ UNCHANGED <<chan, alive, raced, res>>
 ReleaseFree(t, b) == /\ alive[t] /\ blk[b] = [st |-> "vec", th |-> t]
                      /\ blk' = [blk EXCEPT ![b] = Free]
-                     /\ UNCHANGED <<cache, chan, alive, raced>>
+                     /\ UNCHANGED <<cache, chan, alive, raced, res>>
 \* thread t reads or writes the components of a vector: a race iff t is not the holder
 Access(t, b) == /\ alive[t] /\ blk[b].st = "vec"
                 /\ raced' = (raced \/ blk[b].th # t)
-                /\ UNCHANGED <<blk, cache, chan, alive>>
+                /\ UNCHANGED <<blk, cache, chan, alive, res>>
 \* hand-over through the queue
 Send(t, b) == /\ alive[t] /\ blk[b] = [st |-> "vec", th |-> t]
               /\ blk' = [blk EXCEPT ![b] = [st |-> "chan", th |-> 0]]
               /\ chan' = chan \cup {b}
-              /\ UNCHANGED <<cache, alive, raced>>
+              /\ UNCHANGED <<cache, alive, raced, res>>
 Recv(t, b) == /\ alive[t] /\ b \in chan
               /\ blk' = [blk EXCEPT ![b] = [st |-> "vec", th |-> t]]
               /\ chan' = chan \ {b}
-              /\ UNCHANGED <<cache, alive, raced>>
+              /\ UNCHANGED <<cache, alive, raced, res>>
 \* the thread ends (it holds no vectors any more)
 Exit(t) == /\ alive[t] /\ \A b \in Blocks : ~(blk[b].st = "vec" /\ blk[b].th = t)
            /\ alive' = [alive EXCEPT ![t] = FALSE]
@@ -66,13 +73,26 @@ Exit(t) == /\ alive[t] /\ \A b \in Blocks : ~(blk[b].st = "vec" /\ blk[b].th = t
               THEN /\ blk' = [b \in Blocks |-> IF b \in cache[t] THEN Free ELSE blk[b]]
                    /\ cache' = [cache EXCEPT ![t] = {}]
               ELSE UNCHANGED <<blk, cache>>
+           /\ res' = [r \in Res |-> IF res[r] = t /\ DrainOnExit THEN 0 ELSE res[r]]
            /\ UNCHANGED <<chan, raced>>
+\* scratch objects: made by a thread, used by a thread (a race iff it is not the maker), dropped by the maker
+ResMake(t, r) == /\ alive[t] /\ res[r] = 0 /\ res' = [res EXCEPT ![r] = t]
+                 /\ UNCHANGED <<blk, cache, chan, alive, raced>>
+ResUse(t, r) == /\ alive[t] /\ res[r] # 0
+                /\ raced' = (raced \/ res[r] # t)
+                /\ UNCHANGED <<blk, cache, chan, alive, res>>
+ResDrop(t, r) == /\ alive[t] /\ res[r] = t /\ res' = [res EXCEPT ![r] = 0]
+                 /\ UNCHANGED <<blk, cache, chan, alive, raced>>
 
 \* in exploration a thread only ever touches vectors it holds (the discipline the property assumes)
 Next == /\ nops < MaxOps /\ nops' = nops + 1
         /\ \E t \in Threads, b \in Blocks :
              \/ AllocHit(t,b) \/ AllocNew(t,b) \/ ReleaseCache(t,b) \/ ReleaseFree(t,b)
              \/ (blk[b].th = t /\ Access(t,b)) \/ Send(t,b) \/ Recv(t,b) \/ Exit(t)
+             \* the library's discipline: a thread that needs a scratch object uses its own, making one if it has none
+             \* (SharedScratch = TRUE is the design to be excluded: one object made by whoever comes first, used by all)
+             \/ \E r \in Res : \/ ((\A q \in Res : IF SharedScratch THEN res[q] = 0 ELSE res[q] # t) /\ ResMake(t, r))
+                               \/ ((IF SharedScratch THEN res[r] # 0 ELSE res[r] = t) /\ ResUse(t, r))
 Spec == Init /\ [][Next]_vars
 
 \* Requirements -----------------------------------------------------------------------------
@@ -85,4 +105,7 @@ HeapSoundT ==
   /\ \A t \in Threads : Cardinality(cache[t]) <= Cap
 \* storage cached by a thread is given back when the thread ends
 NoBlockInDeadCache == \A t \in Threads : ~alive[t] => cache[t] = {}
+\* one scratch object per thread at most, none kept by a thread that has ended
+ScratchPerThread == /\ \A r1, r2 \in Res : (res[r1] # 0 /\ res[r1] = res[r2]) => r1 = r2
+                    /\ \A r \in Res : res[r] # 0 => alive[res[r]]
 =============================================================================
